@@ -64,4 +64,53 @@ def Op.isMeteredNew : Op K V → Bool
 def St.WF (s : St K V) : Prop :=
   (akeys s.cache).Nodup ∧ (∀ o, s.sess = some o → (akeys o).Nodup) ∧ s.tree.WF
 
+/-! ### metered reads and writes (the repaired `State.Get` / `State.Exists`) -/
+
+/-- the meter refuses a read of `k` through `State.Get`: the block cache is metered, the block's
+    gas is used up, and the key is not answered by the open session (which is never metered) -/
+def Refused (s : St K V) (k : K) : Prop :=
+  s.metered = true ∧ s.gas.consumed ≥ s.gas.limit ∧ s.sess.bind (alookup k) = none
+
+instance (s : St K V) (k : K) : Decidable (Refused s k) := by
+  unfold Refused; exact inferInstance
+
+/-- the meter refuses a write (`Set` / `Delete`): metered, gas used up, no open session -/
+def WriteRefused (s : St K V) : Prop :=
+  s.metered = true ∧ s.gas.consumed ≥ s.gas.limit ∧ s.sess = none
+
+instance (s : St K V) : Decidable (WriteRefused s) := by
+  unfold WriteRefused; exact inferInstance
+
+/-- what a read of `k` through `State.Get` is charged when it is served: nothing from the session
+    or an unmetered cache, otherwise the flat read cost plus the per-byte cost of a cached value -/
+def readCost (c : Cfg K V) (s : St K V) (k : K) : Int :=
+  match s.sess.bind (alookup k) with
+  | some _ => 0
+  | none =>
+    if s.metered then
+      match alookup k s.cache with
+      | some v => 20 + (c.vlen v : Int) * 2
+      | none => 20
+    else 0
+
+/-- `s` with `d` more gas consumed; nothing else differs -/
+def St.addGas (s : St K V) (d : Int) : St K V :=
+  { s with gas := { s.gas with consumed := s.gas.consumed + d } }
+
+/-- what iterating over the keys `ks` is charged when every read is served: keys with a pending
+    delete are skipped before anything is read -/
+def iterCost (c : Cfg K V) (s : St K V) : List K → Int
+  | [] => 0
+  | k :: t => (if s.deleted c k then 0 else readCost c s k) + iterCost c s t
+
+/-- the pairs iteration lists for the keys `ks` when every read is served -/
+def listed (c : Cfg K V) (s : St K V) (ks : List K) : List (K × Option V) :=
+  (ks.filter (fun k => !s.deleted c k)).map (fun k => (k, view c s k))
+
+/-- the pairs iteration lists for the keys `ks` once the meter refuses: only what the open
+    session answers -/
+def listedSess (c : Cfg K V) (s : St K V) (ks : List K) : List (K × Option V) :=
+  (ks.filter (fun k => !s.deleted c k && (s.sess.bind (alookup k)).isSome)).map
+    (fun k => (k, view c s k))
+
 end OLP.KV
